@@ -976,6 +976,9 @@ class Context:
                     return JSFunction("anonymous", params, bytes(), {})
             except (TimeLimitError, MemoryLimitError):
                 raise
+            except RecursionError:
+                # Host stack exhausted while parsing/compiling deeply nested code
+                raise MemoryLimitError("Maximum call stack size exceeded")
             except Exception as e:
                 from .errors import JSError
 
@@ -1114,6 +1117,9 @@ class Context:
                 return vm.run(bytecode_module)
             except (TimeLimitError, MemoryLimitError):
                 raise
+            except RecursionError:
+                # Host stack exhausted while parsing/compiling deeply nested code
+                raise MemoryLimitError("Maximum call stack size exceeded")
             except Exception as e:
                 from .errors import JSError
 
